@@ -25,7 +25,7 @@ P = {
          "§5 C03, App. A"),
  "C04": ("other",
          "storage-layout analysis over canonical key terms (who-may-delete, writer/remover agreement, paired indices) + must-facts for tombstone/existence guards + exit-fact equivalence of notification and state change",
-         "Decides for all paths: registry key = 'x'||sha256(blob) with the blob stored; put reachable only with the tombstone read absent, delete writes it, nothing deletes tombstones (the migration is shown harmless by key-length facts); every id-keyed family a put can populate (x, o, eACL, nnsHasAlias, m) is removed by Delete with the same id on every effectful path, the NNS record cleanup is attempted whenever the alias is removed, alias entry and NNS record are written together; owner index component produced by the same function at put and delete time; getters return only for live containers; PutSuccess/DeleteSuccess/SetEACLSuccess emitted at one site exactly with the state change. Equality with a model over interleavings is not decided, hence 'other'. Added by the mutation sweep: delete removes exactly when the owner lookup found an owner, list/containersOf key selection, meta flag iff metaOnChain, loaders.",
+         "Decides for all paths: registry key = 'x'||sha256(blob) with the blob stored; put reachable only with the tombstone read absent, delete writes it, nothing deletes tombstones (the migration is shown harmless by key-length facts); every id-keyed family a put can populate (x, o, eACL, nnsHasAlias, m) is removed by Delete with the same id on every effectful path, the NNS record cleanup is attempted whenever the alias is removed, alias entry and NNS record are written together; owner index component produced by the same function at put and delete time; getters return only for live containers; PutSuccess/DeleteSuccess/SetEACLSuccess emitted at one site exactly with the state change. Equality with a model over interleavings is not decided, hence 'other'. Added by the mutation sweep: delete removes exactly when the owner lookup found an owner, list/containersOf key selection, meta flag iff metaOnChain, loaders. Round 6: the id-keyed families (registry, owner index, eACL, alias, meta flag) are deleted only from Delete (registry/owner index also by the layout migration).",
          "§5 C04"),
  "C05": ("other",
          "term agreement and must-facts at the fee transfer call; loop-shape analysis; dominance; must-execute fact at the exits of the fee setter",
@@ -37,11 +37,11 @@ P = {
          "§5 C06"),
  "C07": ("other",
          "term agreement witnessed key = storage key, must-facts at stores, exit-fact equivalences across both candidate representations, dispatch coverage",
-         "Decides: every effect of the candidate entry points is gated by the documented witnesses (node key and Alphabet); stored key is the witnessed key; Online on add; every effect of the state dispatch under a declared state, Offline removes / Online, Maintenance rewrite; removal deletes both representations together; an update rewrites every present representation as the stored record with only State replaced and cannot succeed with no write; exactly one UpdateStateSuccess / AddPeerSuccess / AddNode with the change; single emitters and writers. Agreement with a reference model over histories is not decided, hence 'other'.",
+         "Decides: every effect of the candidate entry points is gated by the documented witnesses (node key and Alphabet); stored key is the witnessed key; Online on add; every effect of the state dispatch under a declared state, Offline removes / Online, Maintenance rewrite; removal deletes both representations together; an update rewrites every present representation as the stored record with only State replaced and cannot succeed with no write; exactly one UpdateStateSuccess / AddPeerSuccess / AddNode with the change; single emitters and writers. Agreement with a reference model over histories is not decided, hence 'other'. Round 6: every normal return of AddPeer/AddPeerIR/AddNode has stored the candidate.",
          "§5 C07"),
  "C08": ("other",
          "divisor-non-zero rule over storage writers, sibling agreement of retention bounds as canonical linear terms, must-facts at ring index computations",
-         "Explicitly thin. Decides: every writer of the snapshot count stores a value established > 0 (it is a stored divisor of NewEpoch and Snapshot); NewEpoch drops epoch e-N under e > N and the drop loop of UpdateSnapshotCount covers exactly [cur-old+1, cur-new]; Snapshot establishes 0 <= diff < count; UpdateSnapshotCount leaves the ring index < the new count at every exit; listNodes(e) scans the fixed-width prefix NewEpoch writes (one structurally identified fixed-width encoder for writer, reader and dropper); every normal path of UpdateSnapshotCount that shrinks the window runs the drop loop (skip-edge rule). The legacy ring rotation arithmetic (moveSnapshot positions after resizes) is a relation between run-time integers and is NOT decided. Added by the mutation sweep: Snapshot reads slot (current - diff + count) % count and faults only outside 0..count-1; NewEpoch advances the ring by one modulo count.",
+         "Explicitly thin. Decides: every writer of the snapshot count stores a value established > 0 (it is a stored divisor of NewEpoch and Snapshot); NewEpoch drops epoch e-N under e > N and the drop loop of UpdateSnapshotCount covers exactly [cur-old+1, cur-new]; Snapshot establishes 0 <= diff < count; UpdateSnapshotCount leaves the ring index < the new count at every exit; listNodes(e) scans the fixed-width prefix NewEpoch writes (one structurally identified fixed-width encoder for writer, reader and dropper); every normal path of UpdateSnapshotCount that shrinks the window runs the drop loop (skip-edge rule). What the ring holds after sequences of resizes and ticks is a relation between run-time integers over time and is NOT decided. Added by the mutation sweep: Snapshot reads slot (current - diff + count) % count and faults only outside 0..count-1; NewEpoch advances the ring by one modulo count. Round 6 (ring-move): a single resize moves and frees exactly the slots of the in-place algorithm (grow: tail behind the current slot shifted up by new-old, downwards; shrink: tail shifted down by old-new, or the last new slots up to the current one moved to the front with current := new-1; freed slots exactly those holding no retained map), compared as canonical linear terms under the branch facts and the integer order axioms.",
          "§5 C08"),
  "C09": ("other",
          "abstract interpretation + term agreement at the refund call of NewEpoch and the lock record of Lock",
@@ -61,11 +61,11 @@ P = {
          "§5 C12"),
  "C13": ("other",
          "AST/type lints specific to deploy/ with positive controls + SSA dominance and taint rules",
-         "Explicitly thin: structural necessary conditions only. Index-space consistency of re-sliced ranges; no map iteration order reaching a witness script; tryDeploy/tryTransfer computed as 'local index == 0' and dominating every deploying/funding submission; committee sorted before the index search; NNS stage first; no import that can persist local progress; encoder/decoder field tables of the shared transaction data and checksum helpers agree; name constants agree across deploy, rpc/nns, common and the contracts; a closure invalidating the shared transaction clears the signature cache validated against it; Transaction.Nonce/ValidUntilBlock depend on a chain height only through the window index (SSA taint); a typed constant a call is made with agrees with the one its error wrap names; a local that starts at a negative sentinel and is branched on is assigned somewhere (copy-paste contradiction rules with embedded positive controls). Termination/convergence under schedules and crash points, fund and window arithmetic are NOT decided (would need execution or model checking).",
+         "Explicitly thin: structural necessary conditions only. Index-space consistency of re-sliced ranges; no map iteration order reaching a witness script; tryDeploy/tryTransfer computed as 'local index == 0' and dominating every deploying/funding submission; committee sorted before the index search; NNS stage first; no import that can persist local progress; encoder/decoder field tables of the shared transaction data and checksum helpers agree; name constants agree across deploy, rpc/nns, common and the contracts; a closure invalidating the shared transaction clears the signature cache validated against it; Transaction.Nonce/ValidUntilBlock depend on a chain height only through the window index (SSA taint); a typed constant a call is made with agrees with the one its error wrap names; a local that starts at a negative sentinel and is branched on is assigned somewhere (copy-paste contradiction rules with embedded positive controls). Added by the deploy mutation sweep: an error is not wrapped, logged or returned on the side where it was just found nil; the 'not found' test of a position-or-sentinel local keeps position 0 with the other positions; a search loop hands out its index on the equal side; no submission is reachable only through the 'still pending' side of the monitor's in-flight query; the shared-data matcher answers true only where every field compared equal; a signature is collected only on the true side of its verification and of the checksum split. Termination/convergence under schedules and crash points, fund and window arithmetic are NOT decided (would need execution or model checking). Round 6: in the signature-collection loop the failure side of a per-member error test always goes on with the next member.",
          "§5 C13"),
  "C14": ("other",
          "typestate/loop-shape analysis of the counting loop, key-schema analysis of the roster families, must-facts at acceptance and notification",
-         "Decides: roster key schemas fixed-width with len(cid) == 32 guarded; commit deletes all old n/r keys, moves every scanned u key to n||key[1:] with its value, old-n scan before any n put, each of the five loops reached on every normal path (REP writes only for a non-nil list), left only on exhaustion and with no iteration going round its operation; the signature check is reachable only through the exhausted exit of a membership loop over a per-vector collection of already counted member keys, insertion and increment only on the success branch; acceptance under counter == REP of that cid, members scanned for the vector that selects the signature list and candidates taken from that scan only (a candidate list starts empty inside the per-vector loop), true only after the REP scan is exhausted; SubmitObjectPut notifies only after verification of (cid from meta, meta, sigs) with the meta flag present. The BE16 counter byte codec is value-level and NOT decided. Added by the mutation sweep: edge-guard polarity of counting/insertion/acceptance, roster counter start (decoded last key iff there is one).",
+         "Decides: roster key schemas fixed-width with len(cid) == 32 guarded; commit deletes all old n/r keys, moves every scanned u key to n||key[1:] with its value, old-n scan before any n put, each of the five loops reached on every normal path (REP writes only for a non-nil list), left only on exhaustion and with no iteration going round its operation; the signature check is reachable only through the exhausted exit of a membership loop over a per-vector collection of already counted member keys, insertion and increment only on the success branch; acceptance under counter == REP of that cid, members scanned for the vector that selects the signature list and candidates taken from that scan only (a candidate list starts empty inside the per-vector loop), true only after the REP scan is exhausted; SubmitObjectPut notifies only after verification of (cid from meta, meta, sigs) with the meta flag present. The BE16 counter byte codec is value-level and NOT decided. Added by the mutation sweep: edge-guard polarity of counting/insertion/acceptance, roster counter start (decoded last key iff there is one). Round 6: a REP number is stored under its position in the submitted list.",
          "§5 C14"),
  "C15": ("translation_validation",
          "translation validation by recompilation with the pinned compiler + AST/SSA checks of embed set, deploy order, version",
@@ -73,19 +73,19 @@ P = {
          "§5 C15, §3.7"),
  "C16": ("other",
          "abstract interpretation of every Update and of every _deploy with isUpdate = true: gate entailment, version-bound facts at every effect and exit, write-set inclusion in the migration table with per-entry version guards, move/re-visit rules",
-         "Decides: all 11 Update methods call management.update only under the documented majority (the NeoFS Alphabet designated for the next block for neofs/processing) with (script, manifest, data + Version); every _deploy(update) establishes PrevVersion <= v < Version at every effect and exit for v = last element of data; its write set is within the documented migration table, each step under its version guard and gone round only when the stored version is already at or above the recorded layout-change version (skip-edge rule), no fresh-deploy initialisation reachable; index-keyed in-place rewrites run over the stored count; migrations are whole moves selected by key length and re-visit safe. Read-API preservation for arbitrary prior storages is not decided, hence 'other'. Added by the mutation sweep: every documented migration step above PrevVersion is reachable; migration loops end only on exhaustion.",
+         "Decides: all 11 Update methods call management.update only under the documented majority (the NeoFS Alphabet designated for the next block for neofs/processing) with (script, manifest, data + Version); every _deploy(update) establishes PrevVersion <= v < Version at every effect and exit for v = last element of data; its write set is within the documented migration table, each step under its version guard and gone round only when the stored version is already at or above the recorded layout-change version (skip-edge rule), no fresh-deploy initialisation reachable; index-keyed in-place rewrites run over the stored count; migrations are whole moves selected by key length and re-visit safe. Read-API preservation for arbitrary prior storages is not decided, hence 'other'. Added by the mutation sweep: every documented migration step above PrevVersion is reachable; migration loops end only on exhaustion. Round 6: Version and PrevVersion are composed from disjoint declared components with equal weights, none left out.",
          "§5 C16, App. C"),
  "C17": ("other",
          "must-facts at the vote call and action effects, exit-fact exclusion on the quiet return, operator-normalised boundary agreement of the 20-block window, term check of the refreshed ballot, membership-loop dominance of the voter insertion",
-         "Decides for cheque/alphabetUpdate/setConfig/innerRingCandidateRemove without Notary: voter established non-empty and the witnessed element of the stored list; action only under not(n < floor(2 len(K)/3)+1) over that same list, quiet return executes no action, RemoveVotes(same id) before the action; Vote and TryPurgeVotes use the same predicate gap > 20; a counted vote stores {id, voters+from, current height}; voter appended only after comparison with every recorded voter of the ballot with the same id. Timing over block schedules is not decided, hence 'other'. Added by the mutation sweep: actions fire at every non-quiet return; sides of the window/found tests in Vote, TryPurgeVotes, RemoveVotes index; loaders.",
+         "Decides for cheque/alphabetUpdate/setConfig/innerRingCandidateRemove without Notary: voter established non-empty and the witnessed element of the stored list; action only under not(n < floor(2 len(K)/3)+1) over that same list, quiet return executes no action, RemoveVotes(same id) before the action; Vote and TryPurgeVotes use the same predicate gap > 20; a counted vote stores {id, voters+from, current height}; voter appended only after comparison with every recorded voter of the ballot with the same id. Timing over block schedules is not decided, hence 'other'. Added by the mutation sweep: actions fire at every non-quiet return; sides of the window/found tests in Vote, TryPurgeVotes, RemoveVotes index; loaders. Round 6: the ballot id handed to Vote may depend on the decision id of the call (SSA backward slice).",
          "§5 C17"),
  "C18": ("other",
          "must-facts: validation precedes state, dispatch coverage of record types, numeric limits at the accepting exits of the validators, digit fact before every decimal Atoi",
-         "Explicitly thin. Decides: Register/RegisterTLD reach effects only after the name validator accepted the name, AddRecord/SetRecord only after the type-specific validator accepted the data and only for A/CNAME/TXT/AAAA; accepting exits establish 3 <= len <= 255, fragments 1..63, the last label validated as root (<= 16, leading letter), first and last byte of every accepted fragment in [a-z0-9] and every inner byte in [a-z0-9-] (loop 1..len-2); every decimal Atoi in a validator is reached only with a digit first byte. That the scanners accept EXACTLY the well-formed strings is NOT decided. Added by the mutation sweep: the fragment validator and safeSplitAndCheck are decided in both directions (no rejecting exit satisfiable with all documented conditions).",
+         "Explicitly thin. Decides: Register/RegisterTLD reach effects only after the name validator accepted the name, AddRecord/SetRecord only after the type-specific validator accepted the data and only for A/CNAME/TXT/AAAA; accepting exits establish 3 <= len <= 255, fragments 1..63, the last label validated as root (<= 16, leading letter), first and last byte of every accepted fragment in [a-z0-9] and every inner byte in [a-z0-9-] (loop 1..len-2); every decimal Atoi in a validator is reached only with a digit first byte. That the scanners accept EXACTLY the well-formed strings is NOT decided. Added by the mutation sweep: the fragment validator and safeSplitAndCheck are decided in both directions (no rejecting exit satisfiable with all documented conditions). Round 6: a decimal fragment is accepted only if it does not start with '0' or is one byte long; the zero-filled range of an elided IPv6 run and the shifted slot of the next group are adjacent (two clauses of the address scanners; the scanners as a whole stay undecided).",
          "§5 C18"),
  "C19": ("other",
          "must-facts at notification/transfer sites, canonical arithmetic terms of the shares, loop-shape of per-node transfers",
-         "Decides: Deposit only under caller = GAS and 0 < amount <= 9000*10^8 with receiver in {20-byte data, sender}; Withdraw under W(user), 0 <= amount <= 9000, fee = configured WithdrawFee once to Processing (Notary) / once per stored Alphabet key, results checked, amount*10^8 notified; Cheque pays exactly (self -> user, amount) once, checked, same terms notified, and (without Notary) only at the 2/3+1 threshold of the witnessed Alphabet members after removing the ballot of the same id; candidate fee from the witnessed key's account with the ignore marker; Emit shares floor(g/2) and floor((g - g/2)*7/8/N) over the iterated Inner Ring list; payment callbacks accept only GAS (Alphabet also NEO). The balance identity over histories is not decided, hence 'other'. Added by the mutation sweep: converses for the deposit callback and Withdraw, candidate charged exactly when not stored yet, every accepted payment reported.",
+         "Decides: Deposit only under caller = GAS and 0 < amount <= 9000*10^8 with receiver in {20-byte data, sender}; Withdraw under W(user), 0 <= amount <= 9000, fee = configured WithdrawFee once to Processing (Notary) / once per stored Alphabet key, results checked, amount*10^8 notified; Cheque pays exactly (self -> user, amount) once, checked, same terms notified, and (without Notary) only at the 2/3+1 threshold of the witnessed Alphabet members after removing the ballot of the same id; candidate fee from the witnessed key's account with the ignore marker; Emit shares floor(g/2) and floor((g - g/2)*7/8/N) over the iterated Inner Ring list; payment callbacks accept only GAS (Alphabet also NEO). The balance identity over histories is not decided, hence 'other'. Added by the mutation sweep: converses for the deposit callback and Withdraw, candidate charged exactly when not stored yet, every accepted payment reported. Round 6: a payment carrying the candidate-fee marker is never refused, whatever its amount.",
          "§5 C19"),
  "C20": ("other",
          "storage-layout analysis: component kinds of every Find prefix and Put key (R-prefix rule, family disjointness, put/get key agreement) + must-facts for gates, id length bound and cleanup deltas",
